@@ -542,3 +542,414 @@ def run_checkdiag(case):
             else:
                 out.append(result(f"{func}/supported{tag}", func, "unknown", text=str(p.value), case=case))
     return out
+
+
+# ---------------------------------------------------------------------------------------------------------
+# 9. loop contracts: the iterative solvers for EVERY iteration budget (vlib/loops.py splits the real function around its while loop)
+
+
+def _scalar(term):
+    return SymTensor.real_scalar(SymReal(term))
+
+
+def run_newton_loop(case):
+    """_matrix_inverse_root_newton for arbitrary max_iterations >= 0: invariant  error == ||M - I||_inf  /\\  0 <= iteration <= max_iterations."""
+    mf = M()
+    from vlib.loops import LoopSplit
+    func = "_matrix_inverse_root_newton"
+    out = []
+    try:
+        sp = LoopSplit(mf._matrix_inverse_root_newton)
+    except LookupError as e:
+        return [result(f"{func}/loop-contract-applicable[{case}]", func, "unknown", text=str(e), case=case)]
+    out.append(result(f"{func}/loop-split-tiles-the-function[{case}]", func, "discharged", backend="ast", case=case, text=str(sp.describe())))
+    ident = uf("eye", z3.IntSort(), ARR)(z3.Int("n"))
+    dist = uf("dist_inf", ARR, ARR, z3.RealSort())
+    tolv, mx = z3.Real("tolerance"), z3.Int("max_iterations")
+    mvs = dict(tolerance=tolv, max_iterations=mx, iteration=z3.Int("iteration0"), error=z3.Real("error0"))
+
+    def setup(root):
+        n = SymInt("n")
+        assume(n.t >= 1)
+        A = _A((n, n))
+        eps, tol, mxs = SymReal("epsilon"), SymReal("tolerance"), SymInt("max_iterations")
+        assume(z3.And(eps.t >= 0, tol.t >= 0, mxs.t >= 0))
+        return sp.pre(A, root, epsilon=eps, max_iterations=mxs, tolerance=tol)
+
+    def havoc(env):
+        """Arbitrary loop-head state satisfying the invariant: every name the loop body assigns is replaced."""
+        import torch
+        n = env["dim"]
+        e = dict(env)
+        for nm in sp.body_stores:
+            e[nm] = None
+        e["X"] = SymTensor.array("Xk", dtype=torch.float32, shape=(n, n))
+        e["M"] = SymTensor.array("Mk", dtype=torch.float32, shape=(n, n))
+        e["error"] = _scalar(dist(e["M"].v, ident))
+        e["iteration"] = SymInt("iteration0")
+        assume(z3.And(z3.Int("iteration0") >= 0, z3.Int("iteration0") <= mx, z3.Real("error0") == dist(e["M"].v, ident)))
+        from vlib.loops import UNDEF
+        for nm in sp.body_stores:
+            if e[nm] is None:
+                e[nm] = UNDEF
+        return e
+
+    def inv(env, it_prev=None):
+        it = env["iteration"]
+        itt = it.t if isinstance(it, SymInt) else z3.IntVal(it)
+        g = [env["error"].at(0) == dist(env["M"].v, ident), itt >= 0, itt <= mx]
+        if it_prev is not None:
+            g.append(itt == it_prev + 1)
+        return z3.And(*g)
+
+    for root in (1, 2, 4):
+        ft = FakeTorch()
+        # -- init
+        def fn_init():
+            with rebind([(mf, "torch", ft)]):
+                return setup(root)
+        for pi, p in enumerate(Explorer().run(fn_init)):
+            tag = f"[{case}/r{root}]#p{pi}"
+            if p.outcome != "return":
+                out.append(result(f"{func}/loop/init-no-exception{tag}", func, "unknown" if p.outcome == "abort" else "violated", text=repr(p.value)[:200], case=case))
+                continue
+            out.append(prove(f"{func}/loop/invariant-established{tag}", func, p.cond(), inv(p.value), model_vars=mvs, case=case, replay=dict(kind="newton"),
+                             text="before the first iteration: error = ||M - I||_inf and iteration = 0 <= max_iterations"))
+        # -- step
+        def fn_step():
+            with rebind([(mf, "torch", ft)]):
+                env = havoc(setup(root))
+                if not sp.test(env):
+                    return None
+                kind, e2 = sp.body(env)
+                return kind, e2
+        n_step = 0
+        for pi, p in enumerate(Explorer().run(fn_step)):
+            tag = f"[{case}/r{root}]#p{pi}"
+            if p.outcome != "return":
+                out.append(result(f"{func}/loop/step-no-exception{tag}", func, "unknown" if p.outcome == "abort" else "violated", text=repr(p.value)[:200], case=case))
+                continue
+            if p.value is None:
+                continue
+            n_step += 1
+            kind, e2 = p.value
+            out.append(prove(f"{func}/loop/invariant-preserved{tag}", func, p.cond(), z3.And(z3.BoolVal(kind == "next"), inv(e2, z3.Int("iteration0"))), model_vars=mvs, case=case,
+                             replay=dict(kind="newton"), text="one iteration from ANY state satisfying the invariant and the loop test re-establishes it; iteration advances by exactly one and stays within the budget"))
+        out.append(result(f"{func}/loop/cover:step-paths[{case}/r{root}]", func, "violated" if n_step else "discharged", kind="cover", case=case))
+        # -- exit
+        def fn_exit():
+            with rebind([(mf, "torch", ft)]):
+                env = havoc(setup(root))
+                if sp.test(env):
+                    return None
+                return env, sp.post(env, broke=False)
+        n_exit = 0
+        for pi, p in enumerate(Explorer().run(fn_exit)):
+            tag = f"[{case}/r{root}]#p{pi}"
+            if p.outcome != "return":
+                out.append(result(f"{func}/loop/exit-no-exception{tag}", func, "unknown" if p.outcome == "abort" else "violated", text=repr(p.value)[:200], case=case))
+                continue
+            if p.value is None:
+                continue
+            n_exit += 1
+            env, (X, Mm, flag, iters, err) = p.value
+            conv = flag == mf.NewtonConvergenceFlag.CONVERGED
+            itt = iters.t if isinstance(iters, SymInt) else z3.IntVal(iters)
+            goal = z3.And(err.at(0) == dist(Mm.v, ident), z3.BoolVal(X is env["X"] and Mm is env["M"]), itt >= 0, itt <= mx,
+                          (err.at(0) <= tolv) if conv else z3.And(err.at(0) > tolv, itt == mx, z3.BoolVal(flag == mf.NewtonConvergenceFlag.REACHED_MAX_ITERS)))
+            out.append(prove(f"{func}/loop/exit:flag-CONVERGED<=>residual<=tolerance-for-every-budget{tag}", func, p.cond(), goal, model_vars=mvs, case=case, replay=dict(kind="newton"),
+                             text="from ANY loop-exit state: the returned error is ||M_returned - I||_inf of the returned M; CONVERGED iff it is <= tolerance; otherwise REACHED_MAX_ITERS with the whole budget used"))
+        out.append(result(f"{func}/loop/cover:exit-paths[{case}/r{root}]", func, "violated" if n_exit else "discharged", kind="cover", case=case))
+    return out
+
+
+def run_higher_loop(case):
+    """_matrix_inverse_root_higher_order for arbitrary max_iterations: invariant  error == ||M - I||_inf  /\\  1 <= iteration <= max(max_iterations, 1);
+    a `break` leaves termination_flag = EARLY_STOP; from ANY exit state the residual guard and the flag semantics hold."""
+    mf = M()
+    import torch
+    from vlib.loops import LoopSplit, UNDEF
+    func = "_matrix_inverse_root_higher_order"
+    order = int(case.split("order")[1])
+    out = []
+    try:
+        sp = LoopSplit(mf._matrix_inverse_root_higher_order)
+    except LookupError as e:
+        return [result(f"{func}/loop-contract-applicable[{case}]", func, "unknown", text=str(e), case=case)]
+    out.append(result(f"{func}/loop-split-tiles-the-function[{case}]", func, "discharged", backend="ast", case=case, text=str(sp.describe())))
+    ident = uf("eye", z3.IntSort(), ARR)(z3.Int("n"))
+    vnorm = uf("vector_norm_inf", ARR, z3.RealSort())
+    tolv, mx = z3.Real("tolerance"), z3.Int("max_iterations")
+    mvs = dict(tolerance=tolv, max_iterations=mx, iteration=z3.Int("iteration0"))
+    cap = z3.If(mx >= 1, mx, z3.IntVal(1))
+
+    def resid(Mt):
+        return vnorm(lam(lambda i: Mt.at(i) - z3.Select(ident, i)))
+
+    for root in (Fraction(2), Fraction(4, 3)):
+        ft = FakeTorch()
+        ft.backends.cuda.matmul.allow_tf32 = True
+        fin = SymBool(z3.Bool("lambda_max_finite"))
+        binds = [(mf, "torch", ft), (mf, "isfinite", lambda x: fin)]
+
+        def setup():
+            n = SymInt("n")
+            assume(n.t >= 1)
+            A = _A((n, n))
+            eps, tol, mxs = SymReal("abs_epsilon"), SymReal("tolerance"), SymInt("max_iterations")
+            assume(z3.And(eps.t >= 0, tol.t >= 0, mxs.t >= 0))
+            return sp.pre(A, root, rel_epsilon=0.0, abs_epsilon=eps, max_iterations=mxs, tolerance=tol, order=order, disable_tf32=False)
+
+        def havoc(env, broke=False):
+            n = env["n"]
+            e = dict(env)
+            for nm in sp.body_stores:
+                e[nm] = UNDEF
+            e["X"] = SymTensor.array("Xk", dtype=torch.float32, shape=(n, n))
+            e["M"] = SymTensor.array("Mk", dtype=torch.float32, shape=(n, n))
+            e["iteration"] = SymInt("iteration0")
+            e["n_matmul"] = SymInt("n_matmul0")
+            assume(z3.And(z3.Int("iteration0") >= 1, z3.Int("iteration0") <= cap))
+            if broke:
+                e["error"] = _scalar(z3.Real("stale_error"))
+                e["termination_flag"] = mf.NewtonConvergenceFlag.EARLY_STOP
+            else:
+                e["error"] = _scalar(resid(e["M"]))
+            return e
+
+        def inv(env, it_prev=None):
+            it = env["iteration"]
+            itt = it.t if isinstance(it, SymInt) else z3.IntVal(it)
+            g = [env["error"].at(0) == resid(env["M"]), itt >= 1, itt <= cap]
+            if it_prev is not None:
+                g.append(itt == it_prev + 1)
+            return z3.And(*g)
+
+        rtag = f"r{root.numerator}_{root.denominator}"
+
+        def fn_init():
+            with rebind(binds):
+                try:
+                    return setup()
+                except ArithmeticError as e:
+                    return ("arith", str(e))
+        for pi, p in enumerate(Explorer().run(fn_init)):
+            tag = f"[{case}/{rtag}]#p{pi}"
+            if p.outcome != "return":
+                out.append(result(f"{func}/loop/init-only-ArithmeticError-escapes{tag}", func, "unknown" if p.outcome == "abort" else "violated", text=repr(p.value)[:200], case=case))
+                continue
+            if isinstance(p.value, tuple):
+                continue
+            out.append(prove(f"{func}/loop/invariant-established{tag}", func, p.cond(), inv(p.value), model_vars=mvs, case=case, replay=dict(kind="higher"),
+                             text="after the initial Newton step: error = ||M - I||_inf and iteration = 1 <= max(max_iterations, 1)"))
+
+        def fn_step():
+            with rebind(binds):
+                try:
+                    env = havoc(setup())
+                except ArithmeticError:
+                    return None
+                if not sp.test(env):
+                    return None
+                return sp.body(env)
+        n_step = 0
+        for pi, p in enumerate(Explorer().run(fn_step)):
+            tag = f"[{case}/{rtag}]#p{pi}"
+            if p.outcome != "return":
+                out.append(result(f"{func}/loop/step-no-exception{tag}", func, "unknown" if p.outcome == "abort" else "violated", text=repr(p.value)[:200], case=case))
+                continue
+            if p.value is None:
+                continue
+            n_step += 1
+            kind, e2 = p.value
+            if kind == "next":
+                out.append(prove(f"{func}/loop/invariant-preserved{tag}", func, p.cond(), inv(e2, z3.Int("iteration0")), model_vars=mvs, case=case, replay=dict(kind="higher"),
+                                 text="an iteration that does not break re-establishes error = ||M - I||_inf for the NEW M, advances iteration by one, within the budget"))
+            else:
+                ok = e2["termination_flag"] == mf.NewtonConvergenceFlag.EARLY_STOP
+                out.append(result(f"{func}/loop/break=>EARLY_STOP{tag}", func, "discharged" if ok else "violated", backend="path-enumeration", case=case, replay=dict(kind="higher"),
+                                  text="the stagnation / divergence break sets termination_flag = EARLY_STOP"))
+        out.append(result(f"{func}/loop/cover:step-paths[{case}/{rtag}]", func, "violated" if n_step else "discharged", kind="cover", case=case))
+
+        for broke in (False, True):
+            def fn_exit():
+                with rebind(binds):
+                    try:
+                        env = havoc(setup(), broke=broke)
+                    except ArithmeticError:
+                        return None
+                    if not broke and sp.test(env):
+                        return None
+                    try:
+                        return env, sp.post(env, broke=broke)
+                    except ArithmeticError as e:
+                        return env, ("arith", str(e))
+            n_exit = 0
+            for pi, p in enumerate(Explorer().run(fn_exit)):
+                tag = f"[{case}/{rtag}/{'break' if broke else 'test-false'}]#p{pi}"
+                if p.outcome != "return":
+                    out.append(result(f"{func}/loop/exit-only-ArithmeticError-escapes{tag}", func, "unknown" if p.outcome == "abort" else "violated", text=repr(p.value)[:200], case=case,
+                                      replay=dict(kind="higher")))
+                    continue
+                if p.value is None:
+                    continue
+                n_exit += 1
+                env, r = p.value
+                if len(r) == 2:
+                    continue
+                X, Mm, flag, iters, true_err = r
+                hyp = p.cond()
+                itt = iters.t if isinstance(iters, SymInt) else z3.IntVal(iters)
+                nanX = uf("any_nan_float32", ARR, z3.BoolSort())(X.v)
+                infX = uf("any_inf_float32", ARR, z3.BoolSort())(X.v)
+                goal = z3.And(z3.Not(true_err.at(0) > as_real(1e-1).t), z3.Not(nanX), z3.Not(infX), itt >= 1, itt <= cap, z3.BoolVal(Mm is env["M"]))
+                out.append(prove(f"{func}/loop/exit:normal-return=>residual-within-guard-and-finite{tag}", func, hyp, goal, model_vars=mvs, case=case, replay=dict(kind="higher"),
+                                 text="from ANY loop-exit state a returned result has |A X^p - I| <= 0.1 and no NaN/Inf (else ArithmeticError), for every iteration budget"))
+                errM = resid(Mm)
+                if broke:
+                    g2 = z3.BoolVal(flag == mf.NewtonConvergenceFlag.EARLY_STOP)
+                elif flag == mf.NewtonConvergenceFlag.CONVERGED:
+                    g2 = errM <= tolv
+                elif flag == mf.NewtonConvergenceFlag.REACHED_MAX_ITERS:
+                    g2 = z3.And(errM > tolv, itt >= mx)
+                else:
+                    g2 = z3.BoolVal(False)
+                out.append(prove(f"{func}/loop/exit:flag-matches-loop-exit{tag}", func, hyp, g2, model_vars=mvs, case=case, replay=dict(kind="higher"),
+                                 text="CONVERGED => |M - I| <= tolerance; REACHED_MAX_ITERS => budget used and tolerance not met; EARLY_STOP exactly after a break — for every budget"))
+            out.append(result(f"{func}/loop/cover:exit-paths[{case}/{rtag}/{int(broke)}]", func, "violated" if n_exit else "discharged", kind="cover", case=case))
+    return out
+
+
+def run_qr_loop(case):
+    """_compute_orthogonal_iterations for arbitrary max_iterations: invariant
+         0 <= iteration <= max(max_iterations, 0)  /\\  (iteration = 0 => Q = estimate (cast) /\\ error = +inf)  /\\  (iteration >= 1 => Q = qr(A @ Q').Q for some Q')."""
+    mf = M()
+    import torch
+    from vlib.loops import EarlyReturn, LoopSplit, UNDEF
+    from vlib.tensor import _sig
+    func = "_compute_orthogonal_iterations"
+    out = []
+    try:
+        sp = LoopSplit(mf._compute_orthogonal_iterations)
+    except LookupError as e:
+        return [result(f"{func}/loop-contract-applicable[{case}]", func, "unknown", text=str(e), case=case)]
+    out.append(result(f"{func}/loop-split-tiles-the-function[{case}]", func, "discharged", backend="ast", case=case, text=str(sp.describe())))
+    mx, tolv = z3.Int("max_iterations"), z3.Real("qr_tolerance")
+    mvs = dict(max_iterations=mx, qr_tolerance=tolv, iteration=z3.Int("iteration0"))
+    qrQ, mm = uf("qr_Q", ARR, ARR), uf("matmul", ARR, ARR, ARR)
+    cap = z3.If(mx >= 0, mx, z3.IntVal(0))
+    ft = FakeTorch()
+
+    def setup():
+        n = SymInt("n")
+        assume(n.t >= 2)
+        A = _A((n, n), dtype=torch.float64)
+        est = SymTensor.array("Q0", dtype=torch.float64, shape=(n, n))
+        mxs = SymInt("max_iterations")
+        return A, est, sp.pre(A, est, max_iterations=mxs, tolerance=SymReal("qr_tolerance"))
+
+    def sorted_cols(Qv, Av):
+        ein = uf("einsum_" + _sig("ij, ik, kj -> j") + "_3", ARR, ARR, ARR, ARR)(Qv, Av, Qv)
+        return uf("index_" + _sig(("slice", "t")), ARR, ARR, ARR)(Qv, uf("argsort", ARR, ARR)(ein))
+
+    def havoc(A, env):
+        e = dict(env)
+        for nm in sp.body_stores:
+            e[nm] = UNDEF
+        n = A.size()[0]
+        Qp = SymTensor.array("Qprev", dtype=torch.float64, shape=(n, n))
+        e["Q"] = SymTensor(qrQ(mm(A.v, Qp.v)), dtype=torch.float64, shape=(n, n))
+        e["iteration"] = SymInt("iteration0")
+        e["error"] = _scalar(z3.Real("error0"))
+        assume(z3.And(z3.Int("iteration0") >= 1, z3.Int("iteration0") <= cap))
+        return e
+
+    def it_term(env):
+        it = env["iteration"]
+        return it.t if isinstance(it, SymInt) else z3.IntVal(it)
+
+    # -- init: the zero-estimate fallback, or the invariant at iteration 0
+    def fn_init():
+        with rebind([(mf, "torch", ft)]):
+            try:
+                A, est, env = setup()
+            except EarlyReturn as r:
+                return ("early", r.value)
+            return ("env", A, est, env)
+    for pi, p in enumerate(Explorer().run(fn_init)):
+        tag = f"[{case}]#p{pi}"
+        if p.outcome != "return":
+            out.append(result(f"{func}/loop/init-no-exception{tag}", func, "unknown" if p.outcome == "abort" else "violated", text=repr(p.value)[:200], case=case))
+            continue
+        anyz = uf("any_nonzero", ARR, z3.BoolSort())(z3.Array("Q0", z3.IntSort(), z3.RealSort()))
+        if p.value[0] == "early":
+            Q0 = uf("eigh_Q", ARR, ARR)(z3.Array("A", z3.IntSort(), z3.RealSort()))
+            out.append(prove(f"{func}/loop/zero-estimate=>eigendecomposition{tag}", func, p.cond(), z3.And(z3.Not(anyz), p.value[1].at(IDX) == z3.Select(Q0, IDX)), model_vars=mvs, case=case,
+                             replay=dict(kind="eigvec", cfg="qr", shp="square", diag=False), text="a zero estimate returns the eigenvectors of torch.linalg.eigh(A) before any iteration"))
+            continue
+        _, A, est, env = p.value
+        err0 = env["error"]
+        goal = z3.And(anyz, z3.BoolVal(env["iteration"] == 0 and err0 == float("inf")), env["Q"].at(IDX) == est.at(IDX), z3.BoolVal(env["Q"].dtype == A.dtype))
+        out.append(prove(f"{func}/loop/invariant-established{tag}", func, p.cond(), goal, model_vars=mvs, case=case, replay=dict(kind="eigvec", cfg="qr", shp="square", diag=False),
+                         text="before the first iteration: iteration = 0, error = +inf, Q = the estimate in A's dtype"))
+
+    # -- step, from the initial state (iteration 0) and from an arbitrary later state
+    for start in ("first", "later"):
+        def fn_step():
+            with rebind([(mf, "torch", ft)]):
+                try:
+                    A, est, env = setup()
+                except EarlyReturn:
+                    return None
+                if start == "later":
+                    env = havoc(A, env)
+                if not sp.test(env):
+                    return None
+                qprev = env["Q"].v
+                kind, e2 = sp.body(env)
+                return A, qprev, kind, e2, (0 if start == "first" else z3.Int("iteration0"))
+        n_step = 0
+        for pi, p in enumerate(Explorer().run(fn_step)):
+            tag = f"[{case}/{start}]#p{pi}"
+            if p.outcome != "return":
+                out.append(result(f"{func}/loop/step-no-exception{tag}", func, "unknown" if p.outcome == "abort" else "violated", text=repr(p.value)[:200], case=case))
+                continue
+            if p.value is None:
+                continue
+            n_step += 1
+            A, qprev, kind, e2, it0 = p.value
+            goal = z3.And(z3.BoolVal(kind == "next"), e2["Q"].at(IDX) == z3.Select(qrQ(mm(A.v, qprev)), IDX), it_term(e2) == it0 + 1, it_term(e2) <= cap, it_term(e2) >= 1)
+            out.append(prove(f"{func}/loop/invariant-preserved{tag}", func, p.cond(), goal, model_vars=mvs, case=case, replay=dict(kind="eigvec", cfg="qr", shp="square", diag=False),
+                             text="every iteration, from ANY reachable state: Q <- qr(A @ Q).Q of the CURRENT Q; iteration advances by one within the budget"))
+        out.append(result(f"{func}/loop/cover:step-paths[{case}/{start}]", func, "violated" if n_step else "discharged", kind="cover", case=case))
+
+    # -- exit
+    for start in ("first", "later"):
+        def fn_exit():
+            with rebind([(mf, "torch", ft)]):
+                try:
+                    A, est, env = setup()
+                except EarlyReturn:
+                    return None
+                if start == "later":
+                    env = havoc(A, env)
+                if sp.test(env):
+                    return None
+                return A, env["Q"].v, sp.post(env, broke=False)
+        n_exit = 0
+        for pi, p in enumerate(Explorer().run(fn_exit)):
+            tag = f"[{case}/{start}]#p{pi}"
+            if p.outcome != "return":
+                out.append(result(f"{func}/loop/exit-no-exception{tag}", func, "unknown" if p.outcome == "abort" else "violated", text=repr(p.value)[:200], case=case))
+                continue
+            if p.value is None:
+                continue
+            n_exit += 1
+            A, qfin, r = p.value
+            goal = r.at(IDX) == z3.Select(sorted_cols(qfin, A.v), IDX)
+            if start == "first":
+                goal = z3.And(goal, mx <= 0)  # error = +inf > tolerance, so the loop is skipped only with an empty budget
+            out.append(prove(f"{func}/loop/exit:columns-sorted-by-rayleigh-quotient{tag}", func, p.cond(), goal, model_vars=mvs, case=case, replay=dict(kind="eigvec", cfg="qr", shp="square", diag=False),
+                             text="from ANY loop-exit state the result is the final Q with columns ordered by ascending diag(Q^T A Q); no iteration happens only when max_iterations <= 0"))
+        out.append(result(f"{func}/loop/cover:exit-paths[{case}/{start}]", func, "violated" if n_exit else "discharged", kind="cover", case=case))
+    return out
